@@ -118,11 +118,25 @@ VFactory(rec) ==
     ELSE IF rec.params # 1 THEN <<"drift", "factory-parameters">>
     ELSE <<"ok", "factory">>
 
+\* ---------------------------------------------------------------- bench_time_consensus on a scripted clock
+\* durations and bound in eighths of a second; calls = number of computations observed, total8 = mean * calls * 8
+VBench(rec) ==
+    LET k == BenchCount(rec.d, rec.lb) IN
+    IF rec.out = "setup-failed" THEN <<"skip", "setup-failed">>
+    ELSE IF k = -1 THEN (IF rec.out = "exhausted" THEN <<"ok", "bench-script-exhausted">> ELSE <<"drift", "bench-stops-early">>)
+    ELSE IF k = 0 THEN (IF rec.out = "ZeroDivisionError" THEN <<"ok", "bench-no-computation">>
+                        ELSE <<"drift", "bench-negative-bound">>)
+    ELSE IF rec.out # "ok" THEN <<"drift", "bench-fails:" \o rec.out>>
+    ELSE IF rec.calls # k THEN <<"drift", "bench-number-of-computations">>
+    ELSE IF rec.exact # 1 \/ rec.total8 # SumFirst(rec.d, k) THEN <<"drift", "bench-mean">>
+    ELSE IF rec.argsok # 1 THEN <<"drift", "bench-arguments">>
+    ELSE <<"ok", "bench">>
+
 Verdict(rec) == CASE rec.kind = "topk" -> VTopK(rec) [] rec.kind = "cviews" -> VCViews(rec)
                   [] rec.kind = "pviews" -> VPViews(rec) [] rec.kind = "elem" -> VElem(rec)
                   [] rec.kind = "fileg" -> VFileG(rec) [] rec.kind = "folder" -> VFolder(rec)
                   [] rec.kind = "select" -> VSelect(rec) [] rec.kind = "dviews" -> VDViews(rec)
-                  [] rec.kind = "factory" -> VFactory(rec)
+                  [] rec.kind = "factory" -> VFactory(rec) [] rec.kind = "bench" -> VBench(rec)
 
 Init == i = 0 /\ verdict = <<"init", "">>
 Pick == i = 0 /\ \E j \in DOMAIN Trace : i' = j /\ verdict' = <<"pending", "">>
